@@ -43,6 +43,7 @@ SASL_VARIANTS = [
     ("pre-none-post-plain", [], ["PLAIN"]),
     ("pre-plain-post-none", ["PLAIN"], []),
     ("no-sasl-cap", None, None),
+    ("pre-plain-post-no-sasl-line", ["PLAIN"], False),
 ]
 AUTHMECHS = [None, "PLAIN", "LOGIN", "OAUTHBEARER", "X-UNKNOWN"]
 FAULTS = [None] + \
